@@ -119,3 +119,67 @@ func VerifH_C14_SegmentProtocolSequences() {
 	zzverif.Reach("ran")
 	zzverif.Assert(!c14InitAfter, "a segment is never reopened after its directory was removed")
 }
+
+//verif:harness prop=C14 tier=quick,thorough reach=finished native=off paths=2000000 depth=400 redirect=segment.initialize:c14StubInitialize,seriesIndex.Close:c14StubIndexClose,localFileSystem.MustRMAll:c14StubRMAll,c14MkdirNative:c14MkdirModel,c14DirExistsNative:c14DirExistsModel
+// The same protocol under concurrency: a reader/writer (acquire; use; release), the idle
+// reclaimer (closeIfIdle) and retention (delete) run as concurrent threads, in EVERY interleaving
+// of their atomic loads/CAS/adds and mutex operations. While the holder is between a successful
+// acquire and its release the index is open and the directory exists; nothing deadlocks; at the
+// end the reference count is zero, a deleted segment's directory is gone and its index closed,
+// and the segment was never reopened after its directory was removed.
+// bound: two concurrent threads, one operation each: quick {holder,reclaimer}, {holder,deleter}, {reclaimer,deleter}; thorough also {holder,holder}, {deleter,deleter} and a second check inside the holder's critical section
+// assume: sequential consistency of sync/atomic and mutex operations; non-atomic fields are only accessed under the locks the code takes
+func VerifH_C14_SegmentProtocolInterleavings() {
+	c14Removed, c14Inits, c14InitAfter = false, 0, false
+	dir := "/seg-20240101"
+	s := &c06Seg{
+		location: dir, suffix: "20240101", lfs: fs.NewLocalFileSystem(), l: logger.GetLogger("c14"),
+		tsdbOpts:  &TSDBOpts[c06Table, struct{}]{ShardNum: 1},
+		TimeRange: timestamp.NewSectionTimeRange(time.Unix(0, c06Min), time.Unix(0, c06Min+int64(time.Hour))),
+	}
+	// the segment starts dormant and open (as openSegment leaves it) or idle-closed
+	if zzverif.Bool("starts open") {
+		s.index = &seriesIndex{}
+	}
+	deleted := false
+	holder := func() {
+		if err := s.incRef(context.Background()); err != nil {
+			zzverif.Assert(errors.Is(err, ErrSegmentClosed), "the only refusal is 'segment closed' (it was deleted)")
+			return
+		}
+		zzverif.Yield()
+		zzverif.Assert(s.index != nil, "a held segment keeps its index open")
+		zzverif.Assert(!c14Removed, "a held segment keeps its directory")
+		if zzverif.Thorough() {
+			zzverif.Yield()
+			zzverif.Assert(s.index != nil && !c14Removed, "…for as long as it is held")
+		}
+		s.DecRef()
+	}
+	reclaimer := func() { s.closeIfIdle(math.MaxInt64) }
+	deleter := func() { s.delete(); deleted = true }
+	pairs := 3
+	if zzverif.Thorough() {
+		pairs = 5
+	}
+	switch zzverif.Choice("pair", pairs) {
+	case 0:
+		zzverif.Par(holder, reclaimer)
+	case 1:
+		zzverif.Par(holder, deleter)
+	case 2:
+		zzverif.Par(reclaimer, deleter)
+	case 3:
+		zzverif.Par(holder, holder)
+	case 4:
+		zzverif.Par(deleter, deleter)
+	}
+	zzverif.Reach("finished")
+	zzverif.Assert(s.refCount == 0, "every acquisition was released: no reference leaks")
+	if deleted {
+		zzverif.Assert(c14Removed && s.index == nil, "a deleted segment is gone once its last holder released it")
+	} else {
+		zzverif.Assert(!c14Removed, "nothing but delete removes the directory")
+	}
+	zzverif.Assert(!c14InitAfter, "a segment is never reopened after its directory was removed")
+}
